@@ -37,6 +37,7 @@ func IsSmartContractAddress(rcvAddress []byte) (r bool)
 func IsSmartContractOnMetachain(identifier []byte, rcvAddress []byte) (r bool)
   pure
   ensures is-sc-with-meta-id: r ==> len(rcvAddress) > 25 && IsMetachainIdentifier(identifier) && IsSmartContractAddress(rcvAddress)
+  ensures metachain-marker-bytes-are-zero: r ==> (forall j :: 0 <= j && j < 15 ==> rcvAddress[10 + j] == 0)
 
 func SafeMul(a uint64, b uint64) (r *big.Int)
   ensures fresh(r)
